@@ -387,6 +387,12 @@ Definition model_add (s : list fl) (keys : list fl) : option (list fl) :=
   | Err _ => None
   end.
 
+Fixpoint model_run (s : list fl) (batches : list (list fl)) : option (list fl) :=
+  match batches with
+  | [] => Some s
+  | keys :: rest => match model_add s keys with Some s' => model_run s' rest | None => None end
+  end.
+
 (* ---------------------------------------------------------------------------------------------- *)
 (* Interface for the generated correspondence cases: floats travel as 64-bit patterns. *)
 
